@@ -22,19 +22,17 @@ fn address(n: u8) -> Address {
   Address::p2tr(&secp, xonly, None, Network::Regtest)
 }
 
-fn outpoint(i: usize) -> OutPoint {
-  let mut b = [0u8; 32];
-  // byte-wise ordering of txids must follow the index
-  b[31] = (i / 256) as u8;
-  b[30] = (i % 256) as u8;
-  // Txid ordering compares the internal byte array; put the index in the most significant position
+/// The i-th wallet output (1-based). Outputs are grouped in runs of `gsz` that share a transaction id (outputs of one
+/// batch reveal, say) and differ in vout; the map order (txid bytes, then vout) follows the index either way.
+fn outpoint_in(i: usize, gsz: usize) -> OutPoint {
+  let g = (i - 1) / gsz.max(1) + 1;
+  // Txid ordering compares the internal byte array; put the group number in the most significant position
   let mut arr = [0u8; 32];
-  arr[0] = (i / 256) as u8;
-  arr[1] = (i % 256) as u8;
-  let _ = b;
+  arr[0] = (g / 256) as u8;
+  arr[1] = (g % 256) as u8;
   OutPoint {
     txid: Txid::from_byte_array(arr),
-    vout: 0,
+    vout: if gsz <= 1 { 0 } else { i as u32 },
   }
 }
 
@@ -45,6 +43,8 @@ pub fn run_one(cfg: &Value) -> Value {
   let mut locked = BTreeSet::new();
   let mut runic = BTreeSet::new();
   let wallet_script = address(9).script_pubkey();
+  let gsz = cfg.get("gsz").and_then(|g| g.as_u64()).unwrap_or(1) as usize;
+  let outpoint = |i: usize| outpoint_in(i, gsz);
   for (i, u) in utxos.iter().enumerate() {
     let op = outpoint(i + 1);
     amounts.insert(
@@ -193,12 +193,22 @@ pub fn run(configs: &str, out: &str) -> Result<()> {
     }
     let v: Value = serde_json::from_str(line)?;
     let cfg = if v.get("cfg").is_some() { v["cfg"].clone() } else { v.clone() };
-    let obs = run_one(&cfg);
-    let mut rec = json!({"cfg": cfg, "obs": obs});
-    if let Some(m) = v.get("model") {
-      rec.as_object_mut().unwrap().insert("model".into(), m.clone());
+    // a configuration that does not say how its outputs share transaction ids is run both ways: every output in a
+    // transaction of its own, and all of them outputs of one transaction (the builder must not care)
+    let mut variants = vec![cfg.clone()];
+    if cfg.get("gsz").is_none() && cfg["utxos"].as_array().map(|u| u.len()).unwrap_or(0) > 1 {
+      let mut c2 = cfg.clone();
+      c2["gsz"] = json!(cfg["utxos"].as_array().unwrap().len());
+      variants.push(c2);
     }
-    writeln!(f, "{rec}")?;
+    for cfg in variants {
+      let obs = run_one(&cfg);
+      let mut rec = json!({"cfg": cfg, "obs": obs});
+      if let Some(m) = v.get("model") {
+        rec.as_object_mut().unwrap().insert("model".into(), m.clone());
+      }
+      writeln!(f, "{rec}")?;
+    }
   }
   Ok(())
 }
@@ -262,7 +272,8 @@ pub fn r#gen(seed: u64, n: usize, out: &str) -> Result<()> {
       1 => json!({"kind": "exact", "v": vals[rng.gen_range(4..18)]}),
       _ => json!({"kind": "value", "v": vals[rng.gen_range(4..20)]}),
     };
-    writeln!(f, "{}", json!({"utxos": utxos, "out": {"u": u, "off": off}, "r2": r2, "target": target}))?;
+    let gsz = [1usize, 1, 2, 3, n_utxo][rng.gen_range(0..5)];
+    writeln!(f, "{}", json!({"utxos": utxos, "out": {"u": u, "off": off}, "r2": r2, "target": target, "gsz": gsz}))?;
   }
   Ok(())
 }
